@@ -1,7 +1,7 @@
 """C07 - remove_formatting removes exactly the requested settings, only inside the range."""
 from .. import obs as O
 from .common import (Contract, ansi_values, history, run_cases, tier_sizes, safe_obs, norm_range, settings_texts,
-                     GROUP_CODES)
+                     GROUP_CODES, small_scope_values, small_scope_on, ss_ranges, SS_CODES)
 from ..gen import gen_range, gen_settings
 
 PROP = 'C07'
@@ -156,6 +156,19 @@ def drive(ctx, mon, tier, only_case=None):
     sz = tier_sizes(tier)
 
     def body(rng, ex, case):
+        if case == 0:
+            # bounded-exhaustive part: every small-scope value x remove_formatting(None | each code, every range)
+            m = small_scope_on(ctx, tier)
+            nv = 0
+            for v, _ in small_scope_values(L, m, ctx.shard, ctx.extra.get('nshards', 1)):
+                nv += 1
+                for sel in [None] + SS_CODES:
+                    for a, b in ss_ranges():
+                        with mon.quiet():
+                            t = L.AnsiString(v)
+                        t.remove_formatting(sel, a, b)
+            ctx.extra['n_small_scope_values'] = nv
+            return
         profile = rng.choice(['wf', 'wf', 'mixed', 'hostile'])
         history(L, rng, ex, rng.randint(2, sz['nops']), sz['maxlen'], profile, WEIGHTS)
         for _ in range(4):
